@@ -35,10 +35,18 @@ TRUSTED = [
 ]
 ASSUMPTIONS = [
     "str is modelled as its UTF-8 bytes; re's [^A-Z] and . act bytewise the same as on code points",
+    "hypotheses of the theorems about the casing functions (parameters cls_name = pythonize_class_name/pascal_case, snake = "
+    "safe_snake_case), each sampled on the real functions by this check: (i) snake's result consists of [A-Za-z0-9_] for every input; "
+    "(ii) snake('.'.join(l)) = '_'.join(l) for segments of the form [a-z]+[0-9]* that are not keywords (C13_no_alias_clash, C13_coexist); "
+    "(iii) for each referenced type name T: cls_name(T) is an ASCII identifier, not a keyword, starting with an upper-case letter or digit; "
+    "(iv) cls_name('Foo.Bar') = cls_name('_Foo_Bar') (reference vs. class statement, C13_class_name)",
     "the generated tree is placed inside a package (root <> []): betterproto's relative imports climb to the parent of the "
-    "top-level proto package (C13_toplevel_refuted shows the statement is false otherwise)",
-    "package segments are ASCII identifiers without upper-case letters, not keywords, first segment not `betterproto`; "
-    "type names have no '.' before their first upper-case letter (K2 otherwise)",
+    "top-level proto package (C13_toplevel_refuted shows the statement is false otherwise; README generates into ./lib)",
+    "side conditions of C13_resolves: package segments are ASCII identifiers without upper-case letters, not keywords, first segment "
+    "not `betterproto` (K30), target not google.protobuf itself (C13_wellknown covers it); type names have no '.' before their first "
+    "upper-case letter (K2); C13_coexist additionally: segments of the form [a-z]+[0-9]* (K31 otherwise)",
+    "world model of Spec/PyImport.v: module attributes = its classes, then its sub-packages; names a module binds through its own "
+    "imports are not attributes visible to OTHER modules' from-imports; final bindings only (no import-time ordering)",
     "Jinja rendering and Python's importer are exercised for real in the generation tie but no theorem speaks about them",
 ]
 RULE = ("T2: exhaustive over ordered pairs of package paths of depth 0..3 over {a,b,c} x {message, nested message, enum, nested enum}; "
@@ -122,7 +130,7 @@ def hypotheses(ctx):
             break
         if T[0].isupper():
             # H_cls_ident / no underscore / first char not lower-case, for upper-initial names
-            if not ident.match(c) or keyword.iskeyword(c) or "_" in c or c[0].islower():
+            if not ident.match(c) or keyword.iskeyword(c) or "_" in c or not (c[0].isupper() or c[0].isdigit()) or not c.isascii():
                 ctx.fail("oracle", f"hypothesis on class names fails: pythonize_class_name({T!r})={c!r}", cls="hyp-cls-ident", input=T)
                 break
     # snake: plain segments [a-z]+[0-9]* ; safe_snake_case(".".join(l)) == "_".join(l)
@@ -146,6 +154,15 @@ def hypotheses(ctx):
         n += 1
         if not ident.match(s) or keyword.iskeyword(s):
             ctx.fail("oracle", f"hypothesis H_snake_ident fails: safe_snake_case({'.'.join(l)!r})={s!r}", cls="hyp-snake-ident", input=l)
+            break
+    # snake output consists of identifier characters for ANY input (hypothesis `forall s, ident_chars (snake s)`)
+    chars = re.compile(r"^[A-Za-z0-9_]*$")
+    for _ in range(3000 if not ctx.thorough else 30000):
+        s0 = "".join(rng.choice("abzABZ019_.-/ é\u00df\u4e2d\n$") for _ in range(rng.randint(0, 12)))
+        s = casing.safe_snake_case(s0)
+        n += 1
+        if not chars.match(s):
+            ctx.fail("oracle", f"hypothesis snake_chars fails: safe_snake_case({s0!r})={s!r}", cls="hyp-snake-chars", input=s0)
             break
     ctx.count("hypothesis_samples", n)
     ctx.cov["evaluations"] += n
@@ -314,6 +331,16 @@ def t2(ctx):
             ctx.seen_nontrivial(("parse", s))
     ctx.count("t2_parse_strings_individual", len(strs))
 
+    # regression corpus first
+    cpath = os.path.join(lib.VERIF, "corpus", "C13_cases.json")
+    if os.path.exists(cpath):
+        cp = json.load(open(cpath))
+        for pkg, st in cp.get("get_type_reference", []):
+            for unwrap in (True, False):
+                add(ref_case(pkg, st, unwrap, False, tag="corpus"))
+        for st in cp.get("parse_source_type_name", []):
+            add(parse_case(st))
+        ctx.count("t2_corpus_cases", 2 * len(cp.get("get_type_reference", [])) + len(cp.get("parse_source_type_name", [])))
     # well-known types, google.protobuf itself, all compilers
     wk = sorted(importing.WRAPPER_TYPES) + [".google.protobuf.Duration", ".google.protobuf.Timestamp", ".google.protobuf.Struct",
                                             ".google.protobuf.Empty", ".google.protobuf.Any", ".google.protobuf.FieldMask",
@@ -365,6 +392,31 @@ def t2(ctx):
         pairs.append((f"CZ (Z.of_nat (length (response_files {plist})))", cz(len(real))))
         descr.append(("response_files_count", pk))
     ctx.count("t2_output_file_cases", len(out_cases))
+
+    # ---- traverse(): the flattened names the class statements are made from
+    try:
+        from betterproto.lib.google.protobuf import DescriptorProto, EnumDescriptorProto, FileDescriptorProto
+        from betterproto.plugin.parser import traverse
+
+        leaf = DescriptorProto(name="Leaf_x")
+        inner = DescriptorProto(name="Inner", nested_type=[leaf], enum_type=[EnumDescriptorProto(name="NEn")])
+        outer = DescriptorProto(name="Outer", nested_type=[inner, DescriptorProto(name="second")])
+        fd = FileDescriptorProto(name="t.proto", package="p", message_type=[outer, DescriptorProto(name="Msg")],
+                                 enum_type=[EnumDescriptorProto(name="En")])
+        want = {(5, 0): ["En"], (4, 0): ["Outer"], (4, 0, 3, 0): ["Outer", "Inner"], (4, 0, 3, 0, 4, 0): ["Outer", "Inner", "NEn"],
+                (4, 0, 3, 0, 3, 0): ["Outer", "Inner", "Leaf_x"], (4, 0, 3, 1): ["Outer", "second"], (4, 1): ["Msg"]}
+        got = {tuple(path): item.name for item, path in traverse(fd)}
+        for path, nested in want.items():
+            nl = "[" + "; ".join(coq_bytes(x.encode()) for x in nested) + "]"
+            pairs.append((f"CB (flat_name [] {nl})", cb(got.get(path, "<missing>").encode())))
+            descr.append(("traverse_flat_name", list(path), nested))
+        if set(got) != set(want):
+            ctx.fail("corr", f"traverse yields paths {sorted(got)} , expected {sorted(want)}", input="traverse", no_input=True,
+                     theorem_or_correspondence="T2 traverse / flat_name")
+        ctx.count("t2_traverse_names", len(want))
+    except Exception:  # noqa
+        ctx.fail("corr", "traverse correspondence raised: " + traceback.format_exc()[-800:], no_input=True,
+                 theorem_or_correspondence="T2 traverse / flat_name")
 
     ctx.cov["evaluations"] += len(pairs)
     bad = lib.coq_compare(ctx, "c13", IMPORTS_BASE, pairs, chunk=200, prelude=prelude)
